@@ -146,6 +146,19 @@ CHECKS = {
         design="4/C16",
         technique="bounded exhaustive enumeration driven by the CrossHair fork tree (no symbolic value): stated as such",
     ),
+    "C18": dict(
+        text="For every program and target version (draft 2019-09, draft-07, OpenAPI 3.1, OpenAPI 3.0) the 2020-12 schema and "
+        "the converted schema are both generated concretely by the real builder (including the self-referential "
+        "LazyConversion applied at every level and, for OpenAPI, definitions_schema for the components); every JSON datum "
+        "within bounds is judged by the evaluator under 2020-12 rules on the former and under the target dialect's own "
+        "rules on the latter (array-form items / additionalItems, dependencies, $ref siblings ignored in draft-07, "
+        "nullable): the verdicts must be equal. OpenAPI 3.0 is compared with the 2020-12 schema minus the keywords it "
+        "drops explicitly. Concrete side condition per job: only the target's vocabulary and reference prefix at every "
+        "nesting level, $schema names the dialect.",
+        note="Evaluator cross-checked against jsonschema's Draft201909 / Draft7 validators on realised instances. The "
+        "vocabulary walk is concrete (flagged). Domain exclusions as C06.",
+        design="4/C18",
+    ),
 }
 
 NOT_YET = "check not built yet at this commit (work in progress, see DESIGN.md section 4)"
